@@ -377,7 +377,8 @@ def ob_native_bd():
             desc="WhiteningBD and EnhancedBD (metrics None, naive, fixed, capacity, effective_throughput; every stream count) on ext-int "
                  "channels K 2..3, 2..4 antennas, interference ranks 1..2: inter-user interference nulled, every user's precoder power "
                  "exactly iPu, reported stream counts == precoder columns == filter rows, W_k H_kk Ms_k == I on kept streams, and with "
-                 "'fixed' reduction sacrificing >= rank(interference) streams the external interference is removed (W_k H_ke == 0)")
+                 "'fixed' reduction sacrificing >= rank(interference) streams the external interference is removed (W_k H_ke == 0); each on three "
+                 "realisations of the SAME channel object with the SAME precoder object (randomize, init_from_channel_matrix in between)")
 def ob_native_ext():
     from pyphysim.comm import blockdiagonalization as bd
     from pyphysim.channels import multiuser
@@ -411,6 +412,20 @@ def ob_native_ext():
                 o.set_ext_int_handling_metric(metric, {"modulator": fundamental.PSK(4), "packet_length": 120})
             else:
                 o.set_ext_int_handling_metric(metric)
+        # the same precoder object is used on the same channel OBJECT for three realisations (Monte-Carlo style): every result
+        # is a function of the channel as it is at that call
+        for realisation in ("first", "after randomize()", "after init_from_channel_matrix()"):
+            if realisation == "after randomize()":
+                ch.randomize(n, n, K, rankE)
+            elif realisation == "after init_from_channel_matrix()":
+                ch.init_from_channel_matrix(rr.randn(K * n, K * n + rankE) + 1j * rr.randn(K * n, K * n + rankE), np.full(K, n), np.full(K, n), K, rankE)
+            bad = one_realisation(o, ch, K, n, rankE, iPu, metric, ns_req)
+            if bad:
+                bad["realisation"] = realisation
+                return bad
+        return None
+
+    def one_realisation(o, ch, K, n, rankE, iPu, metric, ns_req):
         Ms, Wk, Ns = o.block_diagonalize_no_waterfilling(ch)
         Hbig = ch.big_H_no_ext_int
         ext = ch.big_H[:, K * n:]
